@@ -4,6 +4,7 @@ import CorsVerif.Spec.Denote
 import CorsVerif.Proofs.Accept
 import CorsVerif.Proofs.RoundTrip
 import CorsVerif.Proofs.LexSound
+import CorsVerif.Proofs.NetFacts
 /-
   C13 — Origin-pattern grammar: documented forms accepted, documented non-forms rejected.
 
@@ -867,6 +868,24 @@ theorem C13_parse_sound {s : Bytes} {o : Origin} (h : Lex.parse s = some o) :
   parse_serialised h
 
 
+/-- **The IPv6 hypothesis of the tree theorems, discharged.** `C01_config`, `C06_roundtrip`, `C15_full` … assume that
+the IPv6 oracle accepts no text starting with `*`. The driver answers IPv6 questions with the model of
+`net/netip` (`Net.ip6`, Model/Net.lean, cross-checked against the library on every host the harness reports),
+and for that model the hypothesis is a theorem. -/
+theorem C13_netip_hext (ext : Ext) (he : ext.ip6 = Net.ip6) :
+    ∀ h info, ext.ip6 h = some info → h.head? ≠ some 42 := by
+  intro h info hi
+  rw [he] at hi
+  exact Net.ip6_no_star h info hi
+
+/-- Tests of the `net/netip` model (evaluated, not theorems): canonical forms, zone, IPv4-mapped, loopback. -/
+example : (Net.ip6 (Spec.b "2001:db8:0:0:1:0:0:1")).map (·.canon) = some (Spec.b "2001:db8::1:0:0:1") := by decide
+example : (Net.ip6 (Spec.b "::1")).map (·.loopback) = some true := by decide
+example : (Net.ip6 (Spec.b "::ffff:1.2.3.4")).map (·.is4in6) = some true := by decide
+example : (Net.ip6 (Spec.b "fe80::1%eth0")).map (·.zone) = some true := by decide
+example : Net.ip6 (Spec.b "1:2:3:4:5:6:7:8:9") = none := by decide
+example : Net.ip6 (Spec.b "1::2::3") = none := by decide
+
 #print axioms C13_accept
 #print axioms C13_accept_self
 #print axioms C13_accept_idna
@@ -885,5 +904,6 @@ theorem C13_parse_sound {s : Bytes} {o : Origin} (h : Lex.parse s = some o) :
 #print axioms C13_reject_no_sep
 #print axioms C13_reject_bad_first_byte
 #print axioms C13_parse_sound
+#print axioms C13_netip_hext
 
 end Cors
